@@ -42,6 +42,10 @@ pub mod squfof;
 pub mod classgroup;
 pub mod relationcls;
 
+// Verification hooks (never compiled in normal builds).
+#[cfg(yamaquasi_verif)]
+pub mod verif_sched;
+
 // We need to perform modular multiplication modulo the input number.
 pub type Int = arith::I1024;
 pub type Uint = arith::U1024;
